@@ -203,6 +203,34 @@ def run(rep, repo, tier):
       continue
     s_nf = fw(s.term)
     facts = {"config": cfg, "forward": show(f, 300), "scale": show(s_nf, 300)}
+    if cls == "quantized_linear":
+      # the three scales the class documents: scale = quantization_scale /
+      # data_type_scale, data_type_scale = 2**(integer - bits + keep_negative)
+      try:
+        sc = b.pe.getattr(b.obj, "scale")
+        dts = b.pe.getattr(b.obj, "data_type_scale")
+      except PyRaise as e:
+        sc = dts = None
+        rep.fail("R8", unit, "scale-property-raises", "%s: %s" % (cfg, e),
+                 loc=loc, instance=cfg)
+      if sc is not None:
+        sc_nf = fw(b.pe.as_term(sc))
+        dts_nf = fw(b.pe.as_term(dts))
+        want_dts = NF.const(F(2) ** (kw["integer"] - kw["bits"] + int(bool(
+            kw["keep_negative"]))))
+        rep.check(dts_nf == want_dts, "R8", unit, "data-type-scale",
+                  "%s: data_type_scale is %s, documented 2**(integer - bits "
+                  "+ keep_negative) = %s" % (cfg, show(dts_nf), show(
+                      want_dts)), loc=loc, instance=cfg,
+                  observed=show(dts_nf, 60))
+        from ..qir import equal_mod_finite as _eq
+        rep.check(_eq(sc_nf * dts_nf, s_nf), "R8", unit,
+                  "exposed-scale!=quantization_scale/data_type_scale",
+                  "%s: scale * data_type_scale = %s but the recorded "
+                  "quantization_scale is %s" % (cfg, show(sc_nf * dts_nf,
+                                                          160),
+                                                show(s_nf, 160)), loc=loc,
+                  instance=cfg)
     if s_nf.single_monomial() is None:
       rep.fail("R1", unit, "scale-not-a-factor",
                "recorded scale is not a single factor: %s" % show(s_nf, 200),
@@ -327,6 +355,19 @@ def run(rep, repo, tier):
   if n7 < 40:
     raise AnalysisError("instance-count only %d installed-quantizer "
                         "configurations" % n7)
+  from .c04 import rule_call_is_pure
+  n9 = rule_call_is_pure(rep, repo, [
+      ("quantized_bits", dict(bits=4, integer=1, alpha="auto")),
+      ("quantized_bits", dict(bits=4, integer=1, alpha="auto_po2")),
+      ("quantized_bits", dict(bits=4, integer=1, alpha=None)),
+      ("quantized_bits", dict(bits=1, integer=0, alpha="auto")),
+      ("quantized_linear", dict(bits=4, integer=1, alpha="auto")),
+      ("quantized_linear", dict(bits=4, integer=1, alpha="auto_po2")),
+      ("quantized_linear", dict(bits=4, integer=1, alpha=None))], "R9", tier)
+  if n9 < 12:
+    raise AnalysisError("instance-count only %d call-purity configurations"
+                        % n9)
+  rep.require_instances("R8", 60)
   rep.require_instances("R6", 40)
   rep.require_instances("R1", 100)
   rep.require_instances("R2", 30)
